@@ -314,6 +314,25 @@ atom("nested_fstring_in_if_else_swap", "for row in [(1, 2), ()]:\n    if not row
 atom("nested_fstring_in_with_candidate", "f3 = open(FIXTURE)\ntxt = f3.read()\nnote(f\"got: {', '.join(f'{c!r:>4}' for c in txt[:2])}\")\nf3.close()\n", "txt", ["alone"])
 atom("nested_fstring_in_loop_invariant", "r = []\nfor i in range(2):\n    label = f\"k={', '.join(f'{c:>2}' for c in 'ab')}\"\n    r.append(label + str(i))\n", "r", ["alone"])
 
+# statements laid out the way black does: one argument per line, the CLOSING bracket alone at the statement's own
+# indentation (column 0 at module level), each on a construct some rule rewrites or removes (family added after the seeded
+# change C20-ignore-bisect-closing-line: a range whose last character is the first character of its last line)
+for _nm, _code, _obs in (
+    ("cast_of_comprehension", "a = list(\n    [w * 2 for w in xs]\n)\n", "a"),
+    ("chained_call", "a = sorted(\n    list(xs)\n)\n", "a"),
+    ("pointless_literal", "a = 1\n[\n    1,\n    2,\n]\n", "a"),
+    ("duplicate_keys", "a = {\n    1: 10,\n    1: 20,\n}\n", "a"),
+    ("set_of_list", "a = set(\n    [1, 2]\n)\n", "sorted(a)"),
+    ("dead_if_test", "a = 0\nif (\n    0\n):\n    a = note(1)\n", "a"),
+    ("constant_ifexp", "a = (\n    xs[0] if True else 0\n)\n", "a"),
+    ("sum_of_list_comp", "a = sum(\n    [w for w in xs]\n)\n", "a"),
+    ("loop_over_list_call", "for w in (\n    list(xs)\n):\n    note(w)\n", ""),
+    ("call_statement", "note(\n    len(list(xs))\n)\n", ""),
+    ("nested_brackets", "a = dict(\n    [\n        (1, 2),\n    ]\n)\n", "a"),
+    ("tuple_unpack", "(\n    a,\n    b,\n) = (\n    list(xs),\n    2,\n)\n", "a, b"),
+):
+    atom("closing_bracket_own_line[%s]" % _nm, _code, _obs, ["alone"])
+
 atom("twin_literals", "e0 = 12\nunit = 'ms'\nspec = 'd'\na = (f'{e0}ms', unit, f'{e0:d}', spec, f'{e0:>4}' '>4', f'''{e0}\nms''', 'ms', \"ms\", r'ms')\n", "a", ["alone"])
 
 # ---- shadowing family: an outer variable the naming rule renames x an inner function whose parameter of each kind has
